@@ -60,6 +60,23 @@ class Prop:
         for tb in (b'\\*00\\', b'\\*\\', b'\\*zz\\', b'\\,*2C\\', b'\\:*3A\\', b'\\*00*00\\', b'\\\\'):
             muts.append(('single', 'tagblock-%s' % tb.hex(), tb + base['single']))
             muts.append(('frag1', 'tagblock-%s' % tb.hex(), tb + base['two'][0]))
+        # tag blocks whose fields carry numbers no clock / counter / float can hold (a reader that interprets a field
+        # must survive what it reads): always embedded, with a correct tag block checksum
+        extremes = [b'99999999999999999999', b'-99999999999', b'1e999', b'inf', b'-inf', b'nan', b'infinity', b'1e400',
+                    b'1' * 40, b'0.0000000001', b'-0', b'1671533231.5', b'1671533231000', b'253402300800',
+                    b'-62135596801', b'1_000', b'\xd9\xa1\xd9\xa2', b'1e-400', b'0x10', b'9' * 3000]
+        for key in (b'c', b'n', b'r', b'd', b's', b't', b'i', b'x'):
+            for v in extremes:
+                if len(v) > 100 and key != b'c':
+                    continue
+                tb = gen.tag_block(b's:station1,' + key + b':' + v if key != b's' else b's:' + v + b',c:1671533231')
+                muts.append(('single', 'tagblock-val-%s-%s' % (key.decode(), v[:12].hex()), tb + base['single']))
+        for v in extremes[:12] + [b'0', b'-1', b'256']:
+            for k in range(3):
+                g = [b'1', b'2', b'77']
+                g[k] = v
+                muts.append(('frag1', 'tagblock-grp%d-%s' % (k, v[:12].hex()),
+                             gen.tag_block(b'g:' + b'-'.join(g) + b',s:x') + base['two'][0]))
         # limits of the parser: payload length and fragment count / number right at, below and above the bounds
         long_bits = gen.payload_bits(rng, 'MessageType8', length=1008) * 2
         for n in (198, 199, 200, 201, 202, 255, 256, 1000):
